@@ -338,6 +338,52 @@ def iers_rules(repo, rep, ev):
         rep.violated('R-ROUND', key, wi, 'converted parameters rounded to %s decimals' % sorted(set(nround)), expected='>= 8', actual=str(sorted(set(nround))))
 
 
+def epoch_rules(repo, rep, cat):
+    """re-referencing is defined at EVERY epoch the catalogue itself uses (the oldest, 1988-01-01, included) and at the ends of the
+    property's span: Transformation.__add__ is evaluated with concrete typed dates on a catalogue set; a raise (or no result) at one of
+    them is a refusal inside the domain - the chains through the sets referenced to that epoch cannot be formed"""
+    import datetime
+    from ..symval import Evaluator as _Ev, Bool as _Bool, NoneV as _NoneV
+    cls = repo.cls('geodepy.constants', 'Transformation')
+    add = cls.methods.get('__add__')
+    if add is None:
+        raise AnalysisError('anchor vanished: Transformation.__add__')
+    ords = set()
+    for name, (obj, expr, st) in cat.items():
+        v = fr(obj.fields.get('ref_epoch'))
+        if v is not None and v > 700000:
+            ords.add(int(v))
+    for ymd in ((1980, 1, 1), (2060, 12, 31), (2020, 2, 29)):
+        ords.add(datetime.date(*ymd).toordinal())
+    pick = sorted(n_ for n_ in cat if n_.startswith('itrf2014_to_itrf2008'))
+    if not pick or not ords:
+        rep.undecided('R-GUARD', 'R-GUARD::geodepy/constants.py::Transformation.__add__::catalogue-epochs', where(add, add.node), 'no catalogue set / epochs to evaluate at')
+        return
+    bad = []
+    for o in sorted(ords):
+        ev = _Ev(repo)
+        ev.fold_const_types = True
+        ev.dates_are_typed = True
+        ev.dates[o] = datetime.date.fromordinal(o).timetuple()[:3]
+        T = ev.global_value(repo.module('geodepy.constants'), pick[0])
+        try:
+            got = ev.call_function(add, {'self': T, add.params[1].name: C(o)})
+        except AnalysisError:
+            got = 'error'
+        fired = [nd_ for q_, c_, nd_ in ev.raise_conds if q_ == add.qualname and isinstance(c_, _Bool) and c_.b]
+        if fired or got is None or isinstance(got, _NoneV):
+            bad.append((o, fired[0] if fired else None))
+    key = 'R-GUARD::geodepy/constants.py::Transformation.__add__::catalogue-epochs'
+    if bad:
+        o, nd = bad[0]
+        rep.violated('R-GUARD', key, where(add, nd if nd is not None else add.node), 'Transformation.__add__ refuses the epoch %s (%s), which is %s: `%s` - sets referenced to it cannot be brought to a '
+                     'common epoch with the others (%d of %d epochs refused)' % (datetime.date.fromordinal(o).isoformat(), pick[0], 'a reference epoch of the catalogue itself' if any(
+                         fr(ob.fields.get('ref_epoch')) == o for ob, e_, s_ in cat.values()) else 'inside the span 1980 - 2060 of the property', stmt_text(nd.test)[:70] if nd is not None and hasattr(nd, 'test') else 'no result',
+                         len(bad), len(ords)), expected='a re-referenced set at every epoch', actual='raise at %s' % datetime.date.fromordinal(o).isoformat())
+    else:
+        rep.holds('R-GUARD', key, where(add, add.node), 'Transformation.__add__ answers at the %d epochs the catalogue uses and at the ends of the span 1980 - 2060' % len(ords))
+
+
 def run(repo, rep):
     alg.reset()
     thorough = rep.tier == 'thorough'
@@ -365,6 +411,7 @@ def run(repo, rep):
     rep.extra['triples'] = ntr
     rep.extra['reverse_pairs'] = npairs
     method_rules(repo, rep, ev)
+    epoch_rules(repo, rep, cat)
     rep.floor('R-LABEL', 120, 'catalogue entries')
     rep.floor('R-CHAIN', 384, 'ordered ITRF triples')
     rep.floor('R-NEG', 55, 'forward/reverse pairs')
